@@ -30,11 +30,22 @@ def make_cases(ctx, n):
         groups = [(gen.lit_str("g%d" % i, quote='"'), str(rng.choice([1, 2, 3, 0]))) for i in range(rng.randint(1, 4))]
         if all(w == "0" for _, w in groups):
             groups[0] = (groups[0][0], "1")
-        prog = gen.Program("e", gen.lit_str(salt, rng) if salt is not None else None, names, ("ret", groups), {x: "any" for x in names})
+        cond = ("ret", groups)
+        fields = {x: "any" for x in names}
+        routed = rng.random() < 0.2
+        if routed:
+            # behind a condition without `else`: a unit the conditions do not route ends with the unroutable error WHATEVER its splitter values are
+            cond = ("if", ("cmp", ("id", "tier"), "==", ("lit", gen.lit_int(1))), ("ret", groups), ("elif", ("cmp", ("id", "tier"), "<", ("lit", gen.lit_int(0))), ("ret", groups), None))
+            fields = dict(fields, tier="num")
+        prog = gen.Program("e", gen.lit_str(salt, rng) if salt is not None else None, names, cond, fields)
         text = gen.render(prog)
         envs = []
         for _ in range(6):
             env = {x: value(rng) for x in names}
+            if routed:
+                env["tier"] = rng.choice([1, 1, -5, 7, 0, "x", None])
+                if rng.random() < 0.4:
+                    env[names[0]] = rng.choice([10 ** 5000, -(10 ** 4400)])      # a value str()/UTF-8 refuses, on a unit that may not be routed at all
             if rng.random() < 0.4:
                 # unrelated extra fields: never printed, never hashed — any value at all, also ones str() itself refuses
                 env["extra_%d" % rng.randrange(3)] = value(rng) if rng.random() < 0.8 else rng.choice([10 ** 5000, -(10 ** 4400), "x" * 100000])
